@@ -30,6 +30,16 @@ inline void random_state(vh::Rng& rng, int* s) {
     if (rng.chance(3, 4)) { s[I_lp] = 0; s[I_bcn] = 0; }
     else { s[I_lp] = 1; s[I_bcn] = 1 + rng.below(4); }
     if (rng.chance(3, 4)) s[I_rep] = 0;
+    // address registers are often placed on the landmarks of their modulo block (block start, +1, mod-1, mod, the word after):
+    // there modulo stepping wraps and linear stepping does not, so the two are told apart
+    for (int i = 0; i < 8; ++i) {
+        if (!rng.chance(1, 2)) continue;
+        unsigned m = (unsigned)s[i < 4 ? I_modi : I_modj], bits = 0;
+        for (unsigned t = m; t; t >>= 1) ++bits;
+        unsigned mask = (1u << bits) - 1, pos;
+        switch (rng.below(5)) { case 0: pos = 0; break; case 1: pos = 1; break; case 2: pos = m - 1; break; case 3: pos = m; break; default: pos = m + 1; }
+        s[I_r + i] = (int)((((unsigned)s[I_r + i] & ~mask) | (pos & mask)) & 0xFFFF);
+    }
     // accumulators: sometimes plain 16/32-bit sign-extended shapes (as the project's generator does)
     static const u64 acc_edges[] = {
         0, 1, 0xFFFFFFFFFFull /* -1 */, 0x7FFF, 0x8000, 0xFFFF, 0x10000, 0x7FFFFFFF, 0x80000000ull, 0x80000001ull,
